@@ -440,22 +440,21 @@ where
 
         let mut stored_group = self.get_group(group_id)?.ok_or(Error::GroupNotFound)?;
 
-        let mut first_valid: Option<message_types::Message> = None;
         let mut offset = 0usize;
-        loop {
+        let first_valid: Option<message_types::Message> = loop {
             let page = self.get_messages(
                 group_id,
                 Some(Pagination::new(Some(DEFAULT_MESSAGE_LIMIT), Some(offset))),
             )?;
             let page_len = page.len();
-            first_valid = page
+            let found = page
                 .into_iter()
                 .find(|m| m.state != message_types::MessageState::EpochInvalidated);
-            if first_valid.is_some() || page_len < DEFAULT_MESSAGE_LIMIT {
-                break;
+            if found.is_some() || page_len < DEFAULT_MESSAGE_LIMIT {
+                break found;
             }
             offset += page_len;
-        }
+        };
 
         stored_group.last_message_id = first_valid.as_ref().map(|m| m.id);
         stored_group.last_message_at = first_valid.as_ref().map(|m| m.created_at);
